@@ -34,7 +34,7 @@ def eval : Nat → Env → Expr → R Expr
         match env.lookup ("@" ++ n) s with
         | some v => .ok (v.setSf f)
         | none => .ok e
-    | .slc x pos size sf _ => do
+    | .slc x pos size sf _ _ => do
         let n ← eval fuel env x
         let res ← getitem cfg fuel n pos (pos + size)
         return res.setSf sf
@@ -130,7 +130,7 @@ def ideal (ρ : Val) : Expr → Nat
   | cst v s _ => v % 2 ^ s
   | reg n s _ => ρ n s % 2 ^ s
   | ext n s _ => ρ ("@" ++ n) s % 2 ^ s
-  | slc x p s _ _ => (ideal ρ x >>> p) % 2 ^ s
+  | slc x p s _ _ _ => (ideal ρ x >>> p) % 2 ^ s
   | comp s _ ps => idealParts ρ ps % 2 ^ s
   | tst t l r _ _ => if ideal ρ t % 2 = 1 then ideal ρ l else ideal ρ r
   | op o l r _ _ _ => binSem o l.sf l.size (ideal ρ l) (ideal ρ r)
@@ -155,7 +155,7 @@ def Den (ρ : Val) : Expr → Nat → Prop
   | cst v s _, x => x = v % 2 ^ s
   | reg n s _, x => x = ρ n s % 2 ^ s
   | ext n s _, x => x = ρ ("@" ++ n) s % 2 ^ s
-  | slc e p s _ _, x => ∃ y, Den ρ e y ∧ x = (y >>> p) % 2 ^ s
+  | slc e p s _ _ _, x => ∃ y, Den ρ e y ∧ x = (y >>> p) % 2 ^ s
   | comp s _ ps, x => ∃ y, DenParts ρ ps y ∧ x = y % 2 ^ s
   | tst t l r _ _, x => ∃ c, Den ρ t c ∧ ((c % 2 = 1 ∧ Den ρ l x) ∨ (c % 2 ≠ 1 ∧ Den ρ r x))
   | op o l r _ _ _, x => ∃ a b, Den ρ l a ∧ Den ρ r b ∧ x = binSem o l.sf l.size a b
